@@ -258,11 +258,6 @@ func (m *Msg) Pack(b []byte, compression bool, size int) (int, error) {
 	}
 
 	var h header
-	h.id, h.bits = m.Header.Pack()
-	h.questions = uint16(len(m.Questions))
-	h.answers = uint16(len(m.Answers))
-	h.authorities = uint16(len(m.Authorities))
-	h.additionals = uint16(len(m.Additionals))
 
 	if size > 0 && size < 512 {
 		size = 512
@@ -296,6 +291,7 @@ func (m *Msg) Pack(b []byte, compression bool, size int) (int, error) {
 		if off, err = q.pack(b, off, compressionMap); err != nil {
 			return off, newSectionErr("question", err)
 		}
+		h.questions++
 	}
 
 	for _, r := range m.Answers {
@@ -307,6 +303,7 @@ func (m *Msg) Pack(b []byte, compression bool, size int) (int, error) {
 		if off, err = r.pack(b, off, compressionMap); err != nil {
 			return off, newSectionErr("answer", err)
 		}
+		h.answers++
 	}
 	for _, r := range m.Authorities {
 		if size > 0 && off+r.packLen() > size {
@@ -317,6 +314,7 @@ func (m *Msg) Pack(b []byte, compression bool, size int) (int, error) {
 		if off, err = r.pack(b, off, compressionMap); err != nil {
 			return off, newSectionErr("authority", err)
 		}
+		h.authorities++
 	}
 	for _, r := range m.Additionals {
 		if size > 0 && off+r.packLen() > size {
@@ -327,6 +325,7 @@ func (m *Msg) Pack(b []byte, compression bool, size int) (int, error) {
 		if off, err = r.pack(b, off, compressionMap); err != nil {
 			return off, newSectionErr("additional", err)
 		}
+		h.additionals++
 	}
 
 	if edns0Opt != nil {
@@ -335,8 +334,12 @@ func (m *Msg) Pack(b []byte, compression bool, size int) (int, error) {
 		if off, err = edns0Opt.pack(b, off, compressionMap); err != nil {
 			return off, newSectionErr("additional", err)
 		}
+		h.additionals++
 	}
 
+	// The section counts are the records actually packed and the TC bit
+	// reflects whether anything had to be left out.
+	h.id, h.bits = msgHdr.Pack()
 	h.pack(b[:12])
 	return off, nil
 }
